@@ -84,11 +84,13 @@ func (s *Session) RunCLI(dir string, args ...string) CmdResult {
 	for _, kv := range os.Environ() {
 		k := strings.SplitN(kv, "=", 2)[0]
 		switch k {
-		case "GOFLAGS", "GOPROXY", "GOSUMDB", "GOTOOLCHAIN", "GOWORK":
+		case "GOFLAGS", "GOPROXY", "GOSUMDB", "GOTOOLCHAIN", "GOWORK", "PWD":
 			continue
 		}
 		env = append(env, kv)
 	}
+	// the logical working directory, as a shell would hand it on (matters when dir is a symbolic link)
+	env = append(env, "PWD="+dir)
 	// no -mod=mod here: `go list` must never write go.sum into the scratch tree
 	env = append(env, "GOFLAGS=", "GOPROXY=off", "GOSUMDB=off", "GOTOOLCHAIN=local", "GOWORK=off")
 	return RunCmd(dir, env, 5*time.Minute, "/bin/sh", sh...)
